@@ -125,7 +125,7 @@ func Atoms() []string {
 	return []string{
 		"a", "t.b", "db.t.c", "`q c`", "`select`", `"Q c"`, "@@session.x", "@uservar",
 		"1", "0", "-2", "1.5", ".5", "2e3", "1.2e-1", "08.3",
-		"'x'", "''", "'it''s'", `'q\'q'`, `'b\\s'`, `'n\nl'`, `'pc%_'`, `'\x41'`, `'ünï'`, `'50\%\_'`, `'a\x41'`, `'\q'`,
+		"'x'", "''", "'it''s'", `'q\'q'`, `'b\\s'`, `'n\nl'`, `'pc%_'`, `'\x41'`, `'ünï'`, `'50\%\_'`, `'a\x41'`, `'\q'`, `'\\x41'`,
 		`"dq"`, `"d\"q"`, `"d""q"`, `"it's"`,
 		`E'e\\s'`, `E'q\'q'`,
 		"x'4142'", "X'4142'", "0x4142", "b'0101'",
